@@ -106,6 +106,8 @@ TVi(f, v)        == [k |-> "vi", f |-> f, v |-> v, w |-> ViW(v)]
 TViW(f, v, w)    == [k |-> "vi", f |-> f, v |-> v, w |-> w]
 TRep(l, n, body) == [k |-> "rep", l |-> l, n |-> n, body |-> body]
 TCut(t, have)    == [k |-> "cut", of |-> t, have |-> have]
+\* n elements of list l are left out here (the elements after them keep their numbering)
+TSkip(l, n)      == [k |-> "skip", l |-> l, n |-> n]
 Bytes(f, n)      == IF n = 0 THEN <<>> ELSE <<TBytes(f, n)>>
 Zeros(n)         == [i \in 1..n |-> 0]
 Junk(bs)         == [i \in 1..Len(bs) |-> TConst("junk", <<bs[i]>>)]
@@ -116,6 +118,7 @@ TokSize(t) == CASE t.k \in {"int", "be", "vi"} -> t.w
                 [] t.k = "const" -> Len(t.b)
                 [] t.k = "rep"   -> t.n * SeqSize(t.body)
                 [] t.k = "cut"   -> t.have
+                [] t.k = "skip"  -> 0
 SeqSize(ts) == IF ts = <<>> THEN 0 ELSE TokSize(Head(ts)) + SeqSize(Tail(ts))
 
 RECURSIVE SumSeq(_)
@@ -621,12 +624,13 @@ A2Addr(e) ==
     IF e.net = 2 /\ e.alen = 16 /\ e.v6 # "" THEN
         LET p == CASE e.v6 = "onioncat" -> OnionCatPrefix [] e.v6 = "v4mapped" -> V4MappedPrefix [] OTHER -> PlainV6Prefix
         IN  <<TConst("a2.pfx", p), TBytes("a2.addr", 16 - Len(p))>>
+    ELSE IF e.alen < 0 THEN <<>>             \* a length no message can hold: nothing follows
     ELSE Bytes("a2.addr", e.alen)
 A2Body(e) == <<TInt("a2.time", 4), TVi("a2.services", e.svc), TConst("a2.net", <<e.net>>), TVi("a2.alen", e.alen)>>
              \o A2Addr(e) \o <<TBe("a2.port", 2)>>
 EncAddrV2(v) == <<TVi("a2.count", RunsLen(v.addrs))>>
                 \o [r \in 1..Len(v.addrs) |-> TRep("a2", v.addrs[r].n, A2Body(v.addrs[r].e))]
-A2Size(e) == 4 + ViW(e.svc) + 1 + ViW(e.alen) + e.alen + 2
+A2Size(e) == 4 + ViW(e.svc) + 1 + ViW(e.alen) + (IF e.alen < 0 THEN 0 ELSE e.alen) + 2
 AddrV2Size(v) == ViW(RunsLen(v.addrs)) + SumSeq([r \in 1..Len(v.addrs) |-> v.addrs[r].n * A2Size(v.addrs[r].e)])
 \* only these can be built and sent
 A2Encodable(e) == e.net \in 1..4 /\ e.alen = NetLen[e.net] /\ e.v6 \in {"", "plain"}
@@ -679,9 +683,15 @@ Dec(type, pver, enc, ts) ==
            [] type = "tx"         -> DecTx(ts, St0, enc)
            [] type = "block"      -> DecBlock(ts, St0, enc)
 
-\* what re-encoding a decoded value produces
+\* what re-encoding a decoded value produces (addrv2: the ignored entries are gone)
+ReEncAddrV2(x) ==
+    IF \A r \in 1..Len(x.addrs) : ~x.addrs[r].e.skip THEN EncAddrV2(x)
+    ELSE <<TVi("a2.count", RunsLen(A2Kept(x).addrs))>>
+         \o [r \in 1..Len(x.addrs) |->
+                IF x.addrs[r].e.skip THEN TSkip("a2", x.addrs[r].n)
+                ELSE TRep("a2", x.addrs[r].n, A2Body(x.addrs[r].e))]
 ReEnc(type, pver, enc, x) ==
-    IF type = "addrv2" THEN EncAddrV2(A2Kept(x)) ELSE Enc(type, pver, enc, x)
+    IF type = "addrv2" THEN ReEncAddrV2(x) ELSE Enc(type, pver, enc, x)
 
 \* the value an encoding decodes back to
 Back(type, enc, m) ==
